@@ -69,6 +69,8 @@ Section Projector.
     | T _ n kids =>
         match n with
         | NDocument _ => flat_map (project_node hl) kids
+        (* projector.rs:38-46: `GraphBlock::Header(self.header_level + 1, ..)`; the counter and
+           `Level` (model.rs:129) are both usize, so the level is exactly the nesting + 1 *)
         | NSection l => GHeader (hl + 1) l :: flat_map (project_node (hl + 1)) kids
         (* a quote or list whose projection has no content is skipped *)
         | NQuote => match flat_map (project_node 0) kids with [] => [] | q => [GQuote q] end
